@@ -57,6 +57,7 @@ CONSTANTS
   MaxFrames,     \* data frames per writer
   MaxReads,      \* Read calls per reader
   MaxEdits,      \* attacker frame edits in total
+  MaxFaults,     \* late transport errors per writer (Write returns an error although the frame left)
   EditOps,       \* subset of {"flip","drop","swap","replay","reflect","inject","trunc","eof"}
   \* ---- bug switches (all FALSE in the real configs) ---------------------------------
   Weak_ChallengeNotBound,      \* the signed challenge does not depend on the transcript (a constant)
@@ -68,7 +69,8 @@ CONSTANTS
   Weak_RecvNonceNotIncremented,\* Read does not call incrNonce(recvNonce)
   Weak_SameKeyBothDirections,  \* deriveSecrets ignores locIsLeast (recvSecret = sendSecret)
   Weak_ReadIgnoresAuthError,   \* Read goes on after recvAead.Open failed
-  Weak_VerifyWrongKey          \* the remote signature is verified against the LOCAL public key
+  Weak_VerifyWrongKey,         \* the remote signature is verified against the LOCAL public key
+  Weak_NonceAfterTransportWrite \* Write calls incrNonce(sendNonce) only after sc.conn.Write returned nil
 
 Attacker == "M"
 Nobody   == "Z"          \* an identity whose private key nobody holds
@@ -134,6 +136,7 @@ NewSess ==
    buf |-> NoSeg,           \* recvBuffer: the unread rest of the last chunk
    sentLen |-> 0,           \* plaintext bytes written so far
    nframes |-> 0, reads |-> 0,
+   wfaults |-> 0,           \* how many Write calls ended with a (late) transport error
    delivered |-> << >>,     \* ghost: plaintext returned by Read so far, as merged segments
    gen |-> 0,               \* ghost: how many of the peer's frames were consumed in order
    last |-> [tam |-> FALSE, err |-> "none", n |-> 0]]   \* ghost: the last Read / RecvAuth
@@ -181,16 +184,27 @@ RecvAuthEof(s) == [s EXCEPT !.pc = "failed", !.err = "eof", !.last = [tam |-> FA
 
 \* ---------------------------------------------------------------- SecretConnection.Write
 NFrames(size) == (size + DataMax - 1) \div DataMax
-WriteOp(rk, X, s, size) ==
-  LET k  == NFrames(size)
+\* fail = 0: every sc.conn.Write succeeds.  fail = j >= 1: the TRANSPORT reports an error for the j-th
+\* sealed frame of this call although the frame has left the host (a net.Conn whose write deadline
+\* fires after the bytes went out, any wrapper that reports an error late): frames 1..j are on the
+\* wire, Write returns (bytes of frames 1..j-1, err) -- and the caller may call Write again.
+\* The code seals, increments sendNonce, THEN writes: the nonce of frame j is consumed whatever
+\* the transport says.  (Weak_NonceAfterTransportWrite: incrNonce only after a successful write.)
+WriteOp(rk, X, s, size, fail) ==
+  LET k  == IF fail = 0 THEN NFrames(size) ELSE fail
       fs == [i \in 1..k |->
                Frame(SendKey(rk, Eph(X), s.remEph),
                      IF Weak_NonceNotIncremented THEN s.sendNonce ELSE s.sendNonce + i - 1,
                      "data", "none", NoSig, X,
                      s.sentLen + DataMax * (i - 1), s.sentLen + MinOf(size, DataMax * i))]
-  IN [s |-> [s EXCEPT !.sendNonce = IF Weak_NonceNotIncremented THEN @ ELSE @ + k,
-                      !.sentLen = @ + size, !.nframes = @ + k],
-      out |-> fs]
+      used == IF fail > 0 /\ Weak_NonceAfterTransportWrite THEN k - 1 ELSE k
+  IN [s |-> [s EXCEPT !.sendNonce = IF Weak_NonceNotIncremented THEN @ ELSE @ + used,
+                      !.sentLen = @ + MinOf(size, DataMax * k),    \* bytes that were sealed and left
+                      !.nframes = @ + k,
+                      !.wfaults = IF fail > 0 THEN @ + 1 ELSE @],
+      out |-> fs,
+      n   |-> IF fail = 0 THEN size ELSE DataMax * (fail - 1),
+      err |-> IF fail = 0 THEN "none" ELSE "transport"]
 
 \* ---------------------------------------------------------------- SecretConnection.Read
 \* ib = frames on the wire towards X (closed stream if ib is empty, otherwise Read would block)
@@ -341,13 +355,15 @@ RecvAuth(X) ==
   /\ act' = [name |-> "RecvAuth", p |-> X, took |-> IF inbox[X] = << >> THEN NoFrame ELSE Head(inbox[X])]
   /\ UNCHANGED <<rank, ephIn, out, closed, fwd, dirty, edits>>
 
-Write(X, size) ==
+Write(X, size, fail) ==
   /\ sess[X].pc = "established"
   /\ sess[X].nframes + NFrames(size) <= MaxFrames
-  /\ LET r == WriteOp(rank, X, sess[X], size) IN
+  /\ fail \in 0..NFrames(size)
+  /\ (fail > 0 => sess[X].wfaults < MaxFaults)
+  /\ LET r == WriteOp(rank, X, sess[X], size, fail) IN
        /\ sess' = [sess EXCEPT ![X] = r.s]
        /\ out' = [out EXCEPT ![X] = @ \o r.out]
-  /\ act' = [name |-> "Write", p |-> X, size |-> size]
+  /\ act' = [name |-> "Write", p |-> X, size |-> size, fail |-> fail]
   /\ UNCHANGED <<rank, ephIn, inbox, closed, fwd, dirty, edits>>
 
 Read(X, size) ==
@@ -460,7 +476,7 @@ MForge(X, pub, sig, nonce) ==
 Next ==
   \E X \in Honest :
      \/ SendEph(X) \/ ProcessEph(X) \/ RecvAuth(X)
-     \/ \E z \in WSizes[X] : Write(X, z)
+     \/ \E z \in WSizes[X], fl \in 0..MaxFrames : Write(X, z, fl)
      \/ \E z \in RSizes[X] : Read(X, z)
      \/ \E e \in MEphs \cup LowPts \cup {Eph(Y) : Y \in Honest} : MEph(X, e)
      \/ MForward(X) \/ MFlip(X) \/ MDrop(X) \/ MSwap(X) \/ MInject(X) \/ MTrunc(X) \/ MEof(X)
